@@ -15,11 +15,12 @@ from vlib.run import Result
 LEVEL = "exploration"
 RULE = (
     "a case = protocol version 4..14 (and NCPs reporting 15 / 16, served with the v14 tables) x generated network/node information (PAN, extended PAN, channel 11..26, channel mask, "
-    "update id, network key + sequence + frame counter, trust-centre link key well-known or not, hashed link key supplied or "
+    "(containing the channel or not), update id, network key + sequence + frame counter, trust-centre link key well-known or not, hashed link key supplied or "
     "absent, 0..N link keys with distinct partners, 0..M children with or without known NWK address, trust-centre address "
     "known or unknown, node IEEE equal to / different from / unknown vs the NCP's) x NCP capabilities (NV3 EUI64 token, "
     "manufacturing token burnable / burnt / absent, token commands implemented or not; NCP factory-fresh or still holding an "
-    "earlier network: other keys, non-zero frame counters, link keys, children, stack up or down). Non-trivial = at least one link "
+    "earlier network: other keys, non-zero frame counters, link keys, children, stack up or down); optionally one link key is "
+    "erased in the NCP between write and read (a hole in the table). Non-trivial = at least one link "
     "key or one child or an EUI64 rewrite; distinct by plan."
 )
 ASSUMPTIONS = [
@@ -105,6 +106,14 @@ async def scenario(loop, plan, out):
         return
     out["eui_after"] = sim.eui64()
     out["supplied_stack_specific"] = network_info.stack_specific
+    out["erased"] = None
+    if plan.get("erase") is not None:
+        # a device left after the restore and its key was erased: the table now has a hole in front of other entries
+        used = [i for i, e_ in enumerate(sim.key_table) if e_ is not None]
+        if used:
+            i = used[plan["erase"] % len(used)]
+            out["erased"] = (hx(sim.key_table[i][0]), hx(sim.key_table[i][1]))
+            sim.key_table[i] = None
     try:
         await asyncio.wait_for(app.load_network_info(load_devices=True), 5000)
         out["load"] = None
@@ -190,6 +199,9 @@ def check(plan) -> Result:
         cmp("ncp-eui64", hx(sim.eui64()), hx(out["node_ieee_written"]))
     # link keys as a set of (partner, key)
     want_keys = {(k["partner"], k["key"]) for k in ni["link_keys"]}
+    if out.get("erased"):
+        want_keys.discard(out["erased"])
+        r.cls("key-erased-after-restore")
     got_keys = {(hx(k.partner_ieee.serialize()), hx(k.key.serialize())) for k in rd.key_table}
     cmp("link-keys", sorted(got_keys), sorted(want_keys))
     if v >= 9:
@@ -237,7 +249,9 @@ def plans(draw, versions=tuple(range(4, 15))):
     channel = draw(st.integers(11, 26))
     net = {
         "pan": draw(st.integers(0, 0xFFFE)), "epid": draw(eui8), "channel": channel,
-        "mask": draw(st.sampled_from([1 << channel, 0x07FFF800, (1 << channel) | (1 << 11)])),
+        # usually the mask contains the operating channel, but a backup need not be that tidy
+        "mask": draw(st.sampled_from([1 << channel, 0x07FFF800, (1 << channel) | (1 << 11), 1 << (11 + (channel - 10) % 16),
+                                      0x07FFF800 & ~(1 << channel)])),
         "update_id": draw(st.integers(0, 255)), "nwk_key": draw(key16), "nwk_seq": draw(st.integers(0, 255)),
         "nwk_fc": draw(st.one_of(st.integers(0, 2**32 - 1), st.sampled_from([0, 1, 2**32 - 1]))),
         "tclk": draw(st.one_of(st.just(hx(WELL_KNOWN)), st.just(hx(WELL_KNOWN)), key16)) if v == 4 else hx(WELL_KNOWN),
@@ -252,8 +266,11 @@ def plans(draw, versions=tuple(range(4, 15))):
     if draw(st.booleans()):
         cap["prior"] = {"fc": draw(st.sampled_from([0x12345, 1, 2**32 - 2])), "aps_fc": draw(st.sampled_from([0, 0x777])),
                         "nkeys": draw(st.integers(0, 3)), "nchildren": draw(st.integers(0, 3)), "up": draw(st.booleans())}
-    return {"v": v, "net": net, "cap": cap, "node_ieee": draw(st.sampled_from(["same", "other", "other", "unknown"])),
+    plan = {"v": v, "net": net, "cap": cap, "node_ieee": draw(st.sampled_from(["same", "other", "other", "unknown"])),
             "allow_burn": draw(st.booleans())}
+    if nkeys >= 2 and draw(st.booleans()):
+        plan["erase"] = draw(st.integers(0, nkeys - 2))  # never the last used slot: a hole needs something behind it
+    return plan
 
 
 def _worker(ctx, job):
